@@ -478,6 +478,14 @@ def r11(rr, repo):
                 bad = length_changing(helper)
                 rr.ob('no helper between the heartbeat facet and the event changes the length of a list-valued field', not bad, lm, c,
                       witness=f'{nm}: {U(bad[0])[:60]}' if bad else nm, key=f'facet-lists-untouched|{nm}')
+    # the field NAMES are part of the shape: the builder recognises bounds and counts by the end of the key (C16.R7), so the key normaliser must not cut keys - a length limit turns
+    # '<long name>_histogram__counts' into '...__count' (the scalar count overwrites the list) or cuts the suffix off altogether
+    _, nk = repo.find(f'{LINF}::normalize_facet_keys')
+    nloops = [n for n in walk_scope(nk) if isinstance(n, ast.For) and U(n.iter).endswith('.items()') and isinstance(n.target, ast.Tuple)]
+    if nloops:
+        kname = U(nloops[0].target.elts[0])
+        cuts = [x for x in ast.walk(nk) if isinstance(x, ast.Subscript) and isinstance(x.slice, ast.Slice) and x.slice.upper is not None and U(x.value) == kname and not (isinstance(x.slice.upper, ast.Constant) and x.slice.upper.value == 1)]
+        rr.ob('the key normaliser never cuts a key short (the end of a key tells the builder what the field is)', not cuts, lm, cuts[0] if cuts else nk, witness=U(cuts[0])[:60] if cuts else '', key='facet-keys-not-truncated')
     # the facet builder itself maps list elements one to one
     comps = [n for n in ast.walk(mk) if isinstance(n, ast.ListComp) and any(isinstance(p_, ast.Assign) and p_.value is n for p_ in ast.walk(mk))]
     rr.floor('element-wise conversions of list fields in the facet builder', len(comps), 2, lm, mk)
